@@ -197,11 +197,13 @@ def run(ctx):
         combos += r.sample(list(itertools.permutations(names, 3)), 150)
     else:
         combos = [c for c in combos if r.random() < 0.45] + [('A', 'B'), ('C', 'D'), ('E', 'I'), ('F', 'I'), ('B', 'A'), ('D', 'C'), ('C', 'H'), ('G', 'H'), ('A', 'H')]
+    # the same kind of edit made twice on one pool thread before a target that must not show it (a reset that restores entries by reference only bites the second time)
+    combos += [('A', 'A', 'B'), ('C', 'C', 'D'), ('E', 'E', 'I'), ('F', 'F', 'I'), ('H', 'H', 'G'), ('A', 'H', 'A', 'B'), ('C', 'E', 'C', 'E', 'D', 'I')]
     # the references are single-target runs in processes of their own: whatever an earlier scan left in module- or class-level state of THIS
     # process (a cache, a table edited in place) cannot make the reference wrong in the same way as the multi-target run
-    single.update(mc.isolated_singles([(n, mc.ip_of(i), e) for i in range(3) for n in names for e in ([], ['-j'])]))
+    single.update(mc.isolated_singles([(n, mc.ip_of(i), e) for i in range(6) for n in names for e in ([], ['-j'])]))
     for combo in combos:
-        for threads in ((1, 2, 3) if ctx.tier == 'thorough' else (r.choice([1, 1, 2, 3]),)):
+        for threads in ((1, 2, 3) if ctx.tier == 'thorough' else ((1,) if len(combo) > 2 else (r.choice([1, 1, 2, 3]),))):
             for extra in (([], ['-j']) if ctx.tier == 'thorough' else (r.choice([[], ['-j']]),)):
                 code, out, hosts, net = mc.run_targets(list(combo), servers, threads=threads, extra=extra)
                 cov.add(('e2e', combo, threads, tuple(extra)), True, tags=['end-to-end', 'threads-%d' % threads, 'json' if extra else 'text'],
